@@ -10,7 +10,7 @@ INT_TYPES = [("int", 256, False)] * 6 + [("int", 256, True)] * 3 + [("int", 128,
 ARITH = ["Add"] * 4 + ["Sub"] * 3 + ["Mul"] * 3 + ["Div"] * 2 + ["Mod"] * 2 + ["BAnd", "BOr", "BXor"]
 CMPS = ["Lt", "Le", "Gt", "Ge", "Eq", "Ne"]
 
-ALL_FEATURES = {"probes", "convert", "ifexp", "minmax", "bitops", "internal", "loops", "arrays", "dynarrays", "structs",
+ALL_FEATURES = {"probes", "maps", "convert", "ifexp", "minmax", "bitops", "internal", "loops", "arrays", "dynarrays", "structs",
                 "transient", "sender", "value", "fordyn", "forin"}
 
 
@@ -104,20 +104,34 @@ class Gen:
             if vt[0] in ("sarr", "darr", "struct"):
                 out.append(E("var", vt, name=name, id=vid))
         for i, (name, vt) in enumerate(self.prog.sto):
-            if vt[0] in ("sarr", "darr", "struct"):
+            if vt[0] in ("sarr", "darr", "struct", "map"):
                 out.append(E("self", vt, name=name, id=i))
         for i, (name, vt) in enumerate(self.prog.tra):
             if vt[0] in ("sarr", "darr", "struct"):
                 out.append(E("tra", vt, name=name, id=i))
         return out
 
-    def index_expr(self, cx, scope, n, d):
-        """uint256 index, mostly in range [0, n)"""
+    def key_expr(self, cx, scope, kt, d):
+        """a HashMap key: mostly one of a few small literals so that reads meet earlier writes"""
+        r = self.r
+        if r.random() < 0.65:
+            if kt == BOOL:
+                return E("const", BOOL, v=r.random() < 0.5)
+            if kt == ADDR:
+                return E("const", ADDR, v=r.choice([0, 1, int(DEPLOYER, 16)])) if r.random() < 0.6 or "sender" not in self.feat \
+                    else E("sender", ADDR)
+            lo, hi = int_bounds(kt)
+            return E("const", kt, v=r.choice([0, 1, 2, 3, hi, lo]))
+        e = self.nonlit(cx, scope, kt, d - 1)
+        return e if e is not None else self.lit(kt)
+
+    def index_expr(self, cx, scope, n, d, static=True):
+        """uint256 index, mostly in range [0, n); a literal index of a static array must be in range (compile-time check)"""
         r = self.r
         x = r.random()
         if n > 0 and x < 0.5:
             return E("const", U256, v=r.randrange(n))
-        if x < 0.6:
+        if x < 0.6 and not static:
             return E("const", U256, v=max(n, 0) + r.randrange(2))    # out of range
         e = self.nonlit(cx, scope, U256, d - 1)
         if e is None:
@@ -145,24 +159,47 @@ class Gen:
                         cands.append(("idxfld", c, fn, k))
             elif ct[0] in ("sarr", "darr") and ct[1][0] in ("sarr", "darr") and ct[1][1] == t:
                 cands.append(("idxidx", c))
+            elif ct[0] == "map":
+                vt = ct[2]
+                if vt == t:
+                    cands += [("map", c)] * 2
+                elif vt[0] == "map" and vt[2] == t:
+                    cands.append(("mapmap", c))
+                elif vt[0] in ("sarr", "darr") and vt[1] == t:
+                    cands.append(("mapidx", c))
+                elif vt[0] == "struct":
+                    for k, (fn, ft) in enumerate(vt[2]):
+                        if ft == t:
+                            cands.append(("mapfld", c, fn, k))
         if not cands:
             return None
         c = self.r.choice(cands)
 
         def n_of(ct):
             return ct[2] if ct[0] == "sarr" else max(1, ct[2] // 2)
+        if c[0] == "map":
+            return E("idx", t, a=c[1], i=self.key_expr(cx, scope, c[1].ty[1], d))
+        if c[0] == "mapmap":
+            inner = E("idx", c[1].ty[2], a=c[1], i=self.key_expr(cx, scope, c[1].ty[1], d))
+            return E("idx", t, a=inner, i=self.key_expr(cx, scope, c[1].ty[2][1], d))
+        if c[0] == "mapidx":
+            inner = E("idx", c[1].ty[2], a=c[1], i=self.key_expr(cx, scope, c[1].ty[1], d))
+            return E("idx", t, a=inner, i=self.index_expr(cx, scope, n_of(c[1].ty[2]), d, static=(c[1].ty[2])[0] == "sarr"))
+        if c[0] == "mapfld":
+            inner = E("idx", c[1].ty[2], a=c[1], i=self.key_expr(cx, scope, c[1].ty[1], d))
+            return E("fld", t, a=inner, name=c[2], id=c[3])
         if c[0] == "idx":
-            return E("idx", t, a=c[1], i=self.index_expr(cx, scope, n_of(c[1].ty), d))
+            return E("idx", t, a=c[1], i=self.index_expr(cx, scope, n_of(c[1].ty), d, static=(c[1].ty)[0] == "sarr"))
         if c[0] == "fld":
             return E("fld", t, a=c[1], name=c[2], id=c[3])
         if c[0] == "fldidx":
             base = E("fld", c[4], a=c[1], name=c[2], id=c[3])
-            return E("idx", t, a=base, i=self.index_expr(cx, scope, n_of(c[4]), d))
+            return E("idx", t, a=base, i=self.index_expr(cx, scope, n_of(c[4]), d, static=(c[4])[0] == "sarr"))
         if c[0] == "idxfld":
-            base = E("idx", c[1].ty[1], a=c[1], i=self.index_expr(cx, scope, n_of(c[1].ty), d))
+            base = E("idx", c[1].ty[1], a=c[1], i=self.index_expr(cx, scope, n_of(c[1].ty), d, static=(c[1].ty)[0] == "sarr"))
             return E("fld", t, a=base, name=c[2], id=c[3])
-        base = E("idx", c[1].ty[1], a=c[1], i=self.index_expr(cx, scope, n_of(c[1].ty), d))
-        return E("idx", t, a=base, i=self.index_expr(cx, scope, n_of(c[1].ty[1]), d))
+        base = E("idx", c[1].ty[1], a=c[1], i=self.index_expr(cx, scope, n_of(c[1].ty), d, static=(c[1].ty)[0] == "sarr"))
+        return E("idx", t, a=base, i=self.index_expr(cx, scope, n_of(c[1].ty[1]), d, static=(c[1].ty[1])[0] == "sarr"))
 
     def callable_funs(self, cx, t, any_ret=False):
         if "internal" not in self.feat:
@@ -370,14 +407,18 @@ class Gen:
             return None
         base, t = r.choice(roots)
         path = []
-        while t[0] in ("sarr", "darr", "struct") and r.random() < 0.75:
+        while t[0] == "map" or (t[0] in ("sarr", "darr", "struct") and r.random() < 0.75):
+            if t[0] == "map":
+                path.append(("i", self.key_expr(cx, scope, t[1], d)))
+                t = t[2]
+                continue
             if t[0] == "struct":
                 k = r.randrange(len(t[2]))
                 path.append(("f", t[2][k][0], k))
                 t = t[2][k][1]
             else:
                 n = t[2] if t[0] == "sarr" else max(1, t[2] // 2)
-                path.append(("i", self.index_expr(cx, scope, n, d)))
+                path.append(("i", self.index_expr(cx, scope, n, d, static=t[0] == "sarr")))
                 t = t[1]
         return base, path, t
 
@@ -385,6 +426,8 @@ class Gen:
         """returns a list of statements (possibly declaring into scope)"""
         r = self.r
         kinds = ["decl"] * 3 + ["assign"] * 4 + ["aug"] * 3 + ["assert"] * 2 + ["log"] * 2
+        if d > 0 and "loops" in self.feat and cx.loop_depth < 2:
+            kinds += ["idiom"] * 2
         if d > 0:
             kinds += ["if"] * 5
             if "loops" in self.feat and cx.loop_depth < 2:
@@ -400,6 +443,11 @@ class Gen:
             kinds += ["ret_if"]
         k = r.choice(kinds)
         ed = 2 if r.random() < 0.7 else 3
+        if k == "idiom":
+            out = self.idiom(cx, scope, d)
+            if out:
+                return out
+            k = "assign"
         if k == "decl":
             x = r.random()
             comp = [t for t in self.comp_types if t[0] != "struct" or True]
@@ -486,6 +534,63 @@ class Gen:
             rv = None if cx.ret is None else self.expr(cx, scope, cx.ret, 2)
             return [S("if", c=c, th=[S("return", e=rv)], el=[])]
         raise ValueError(k)
+
+    def idiom(self, cx, scope, d):
+        """copy / accumulate idioms that stress store->load forwarding, mem2var and dead-store elimination across control
+        flow: a location is written from a variable and then both are used inside a loop or a branch"""
+        r = self.r
+        places = self.scalar_targets(cx, scope, is_int)
+        places = [p for p in places if p[0][0] != "loc" or r.random() < 0.4]
+        if not places:
+            return None
+        base, path, t = r.choice(places)
+        if base[0] == "loc":
+            place = E("var", t, name=base[1], id=base[2])
+        elif base[0] == "sto":
+            place = E("self", t, name=base[1], id=base[2])
+        else:
+            place = E("tra", t, name=base[1], id=base[2])
+        srcs = [e for e in self.readable(cx, scope, t) if not (e.k == place.k and e.f.get("name") == place.f.get("name"))]
+        out = []
+        outer_scope, scope = scope, list(scope)     # commit new locals only when the idiom is emitted
+        if srcs and r.random() < 0.7:
+            x = r.choice(srcs)
+        else:
+            name, vid = self.new_local(cx, t)
+            scope.append((name, vid, t, True))
+            out.append(S("assign", base=("loc", name, vid), path=[], e=self.expr(cx, scope[:-1], t, 1), decl=t))
+            x = E("var", t, name=name, id=vid)
+        op = r.choice(["Add", "Add", "Sub", "Mul", "BXor", "BOr"] if "bitops" in self.feat else ["Add", "Add", "Sub", "Mul"])
+        shape = r.choice(["store_loop_aug", "store_loop_assign", "load_loop_use", "store_if_use"])
+        lname, lid = self.new_local(cx, U256)
+        n = r.randrange(2, 4)
+        if shape == "store_loop_aug":
+            out.append(S("assign", base=base, path=[], e=x, decl=None))
+            out.append(S("for", name=lname, id=lid, vty=U256, start=0, n=n,
+                         body=[S("aug", op=op, ty=t, base=base, path=[], e=x.clone())]))
+        elif shape == "store_loop_assign":
+            out.append(S("assign", base=base, path=[], e=x, decl=None))
+            a, b = (place, x.clone()) if r.random() < 0.5 else (x.clone(), place)
+            out.append(S("for", name=lname, id=lid, vty=U256, start=0, n=n,
+                         body=[S("assign", base=base, path=[], e=E("bin", t, op=op, a=a, b=b), decl=None)]))
+        elif shape == "load_loop_use":
+            yname, yid = self.new_local(cx, t)
+            scope.append((yname, yid, t, True))
+            out.append(S("assign", base=("loc", yname, yid), path=[], e=place, decl=t))
+            out.append(S("for", name=lname, id=lid, vty=U256, start=0, n=n,
+                         body=[S("aug", op=op, ty=t, base=base, path=[], e=x.clone())]))
+            out.append(S("assign", base=("loc", yname, yid), path=[],
+                         e=E("bin", t, op=r.choice(["Add", "BXor"]) if "bitops" in self.feat else "Add",
+                             a=E("var", t, name=yname, id=yid), b=place.clone()), decl=None))
+        else:
+            c = self.nonlit(cx, scope, BOOL, 1)
+            if c is None:
+                return None
+            out.append(S("assign", base=base, path=[], e=x, decl=None))
+            out.append(S("if", c=c, th=[S("aug", op=op, ty=t, base=base, path=[], e=x.clone())], el=[]))
+            out.append(S("aug", op=op, ty=t, base=base, path=[], e=x.clone()))
+        outer_scope[:] = scope
+        return out
 
     def darr_target(self, cx, scope, d):
         for _ in range(6):
@@ -721,6 +826,17 @@ class Gen:
         for i in range(r.randrange(1, 5)):
             t = r.choice(self.comp_types) if (self.comp_types and r.random() < 0.4) else self.prim_type()
             p.sto.append((f"s{i}", t))
+        if "maps" in self.feat and r.random() < 0.45:
+            for _ in range(r.randrange(1, 3)):
+                kt = r.choice([U256, U256, ("int", 128, True), ("int", 8, False), BOOL, ADDR, self.int_type()])
+                x = r.random()
+                if x < 0.5 or not self.comp_types:
+                    vt = self.prim_type()
+                elif x < 0.8:
+                    vt = r.choice(self.comp_types)
+                else:
+                    vt = ("map", r.choice([U256, ("int", 8, True), BOOL]), self.prim_type())
+                p.sto.append((f"s{len(p.sto)}", ("map", kt, vt)))
         if "transient" in self.feat and r.random() < 0.4:
             for i in range(r.randrange(1, 3)):
                 t = r.choice(self.comp_types) if (self.comp_types and r.random() < 0.3) else self.prim_type()
